@@ -148,6 +148,13 @@ def apply_model(lst, op):
     name = op[0]
     if name in ("rebuild", "copy"):
         return None
+    if name == "extend_self":
+        lst.extend(list(lst))
+        return None
+    if name == "update_self":
+        for k, v in list(lst):
+            model_set(lst, k, v)
+        return None
     if name == "extend_as":
         lst.extend(pairs_of(op[2]))
         return None
@@ -219,8 +226,34 @@ def apply_model(lst, op):
     return None
 
 
+class DoesNotTerminate(BaseException):
+    pass
+
+
+def _bounded_cpu(fn, seconds=0.3):
+    """fn() under a CPU-time limit (ITIMER_VIRTUAL: robust against a busy machine)."""
+    import signal
+
+    def handler(signum, frame):
+        raise DoesNotTerminate()
+
+    old = signal.signal(signal.SIGVTALRM, handler)
+    signal.setitimer(signal.ITIMER_VIRTUAL, seconds)
+    try:
+        return fn()
+    finally:
+        signal.setitimer(signal.ITIMER_VIRTUAL, 0)
+        signal.signal(signal.SIGVTALRM, old)
+
+
 def apply_real(d, op, cls):
     name = op[0]
+    if name == "extend_self":
+        # the container as its own argument (list.extend(itself) doubles the list);
+        # a loop that keeps reading what it appends is cut off after 0.3 s of CPU time
+        return _bounded_cpu(lambda: d.extend(d))
+    if name == "update_self":
+        return d.update(d)
     if name == "extend_as":
         return d.extend(carry(op[1], op[2], cls))
     if name == "update_as":
@@ -332,6 +365,12 @@ def check_views(d, lst, cls):
         for i in range(-n, n):
             if kv[i] != ks[i] or vv[i] != vs[i] or iv[i] != lst[i]:
                 return f"view index {i} disagrees"
+        for sl in (slice(None), slice(1, None), slice(None, -1), slice(None, None, 2),
+                   slice(0, 2)):
+            if list(kv[sl]) != ks[sl] or list(vv[sl]) != vs[sl] or \
+                    list(iv[sl]) != lst[sl]:
+                return (f"view slice {sl}: keys {kv[sl]!r} values {vv[sl]!r} items "
+                        f"{iv[sl]!r}, list says {lst[sl]!r}")
         for k in KEYS_ALL:
             present = k in ks
             if (k in d) != present:
@@ -441,6 +480,10 @@ def run_history(clsname, history):
                     rret = ("ok", None)
                 else:
                     rret = ("ok", apply_real(d, op, cls))
+            except DoesNotTerminate:
+                return (f"C10/{op[0]}/does-not-terminate",
+                        f"step {step} {op!r}: still running after 0.3 s of CPU time "
+                        f"on a container of {len(lst)} pairs")
             except Exception as e:
                 rret = ("exc", type(e).__name__)
             if op[0] in ("pop0", "popitem") and mret[0] == "exc" and \
@@ -515,7 +558,7 @@ def ex_ops():
             ("update_as", "keysobj", (("b", 2), ("a", 1))),
             ("insert_as", "lol", 1, (("b", 2), ("b", 1))),
             ("rebuild", "gen"), ("rebuild", "omd"), ("rebuild", "itemsobj"),
-            ("copy",)]
+            ("copy",), ("extend_self",), ("update_self",)]
     return ops
 
 
@@ -590,6 +633,7 @@ def op_strategy():
         st.tuples(st.just("rebuild"),
                   st.sampled_from([c for c in CARRIERS if c not in UNIQUE_ONLY])),
         st.tuples(st.just("copy")),
+        st.tuples(st.sampled_from(["extend_self", "update_self"])),
     )
 
 
